@@ -6,6 +6,7 @@
 -/
 import DdnnfVerif.Proofs.Sat
 import DdnnfVerif.Proofs.WFCheck
+import DdnnfVerif.Proofs.SatState
 namespace Ddnnf.C03
 
 /-- SAT answers true exactly when at least one model contains all listed literals. -/
@@ -29,5 +30,26 @@ theorem mark_iff_no_compatible_model (nodes : List NType) (negs : List Int) (i :
   satMark_iff nodes negs i
 
 example : satQuery smallEx 4 [3, 4] = true ∧ satQuery smallEx 4 [-1] = false := by decide
+
+/-- The imperative algorithm (`propagate_mark` recursing from the complementary leaves upwards
+through the parents, with the "already marked" cut, the or-test at the moment a child reports and
+the early return at the root; `Model/SatState.lean`) on a fresh vector answers like the fixpoint
+model `satQuery`. -/
+theorem imperative_propagation_answers_like_the_fixpoint (nodes : List NType) (n : Nat)
+    (htopo : Topo nodes) (hne : nodes ≠ []) (hu : LitUnique nodes) (A : List Int) :
+    SatS.sat nodes n A = satQuery nodes n A :=
+  SatS.sat_eq_satQuery nodes n htopo hne hu A
+
+/-- Kept vector (decision propagation): as long as all earlier calls answered `true`, the k-th
+call on the vector the earlier calls left behind answers like a fresh query for all literals
+passed so far. -/
+theorem kept_state_answers_like_a_fresh_query (nodes : List NType) (n : Nat) (htopo : Topo nodes)
+    (hne : nodes ≠ []) (hu : LitUnique nodes) (chunks : List (List Int)) (k : Nat)
+    (hk : k < chunks.length)
+    (hprev : ∀ j, j < k →
+      ((SatS.satChunks nodes n (Array.replicate nodes.length false) chunks).2).getD j false = true) :
+    ((SatS.satChunks nodes n (Array.replicate nodes.length false) chunks).2).getD k false
+      = satQuery nodes n ((chunks.take (k + 1)).flatten) :=
+  SatS.satChunks_spec nodes n htopo hne hu chunks k hk hprev
 
 end Ddnnf.C03
